@@ -38,10 +38,7 @@ let dump_bloom (b : bloom) =
 
 let get_opt = function Some x -> x | None -> failwith "diverges"
 
-let () = register "bloom" (fun args ->
-  match args with
-  | [ entries; locs ] ->
-      let b = ref (get_opt (bloom_new (n_of_string entries) (n_of_string locs))) in
+let bloom_ops (b : bloom ref) =
       (fun op ->
         match op with
         | [ "add"; h ] -> b := bl_add !b (n_of_string h); "ok"
@@ -53,7 +50,15 @@ let () = register "bloom" (fun args ->
             let (bs, locs) = bl_marshal !b in
             b := get_opt (bl_unmarshal bs locs); dump_bloom !b
         | _ -> "badop")
+
+let () = register "bloom" (fun args ->
+  match args with
+  | [ entries; locs ] -> bloom_ops (ref (get_opt (bloom_new (n_of_string entries) (n_of_string locs))))
   | _ -> failwith "bloom header")
+let () = register "bloomfp" (fun args ->
+  match args with
+  | [ _; _; _; size; locs ] -> bloom_ops (ref (get_opt (bloom_new (n_of_string size) (n_of_string locs))))
+  | _ -> failwith "bloomfp header")
 
 let () = register "getsize" (fun _ -> fun op ->
   match op with
